@@ -38,7 +38,7 @@ ValidMnemonic(words, facts) ==      \* TRUE / FALSE / "nofact"
   LET d == Decoded(words)
   IN IF ~d.wellFormed THEN "false"
      ELSE IF facts.ent # d.cand THEN "nofact"
-     ELSE IF ChecksumOK(d.idx, facts.sha, WB, CSDIV) THEN "true" ELSE "false"
+     ELSE IF Bip39ChecksumOK(d.idx, facts.sha, WB, CSDIV) THEN "true" ELSE "false"
 
 AsciiOnly(s) == \A i \in DOMAIN s : s[i] < 128
 Mnemonic8 == <<109, 110, 101, 109, 111, 110, 105, 99>>      \* "mnemonic"
